@@ -13,16 +13,16 @@ RULE = ("Hypothesis-generated abstract commit DAGs (1-9 commits: linear extensio
         "HEAD on any commit, attached or detached) materialised with git plumbing; 1-3 experiments with 0-5 recorded versions "
         "whose commit is on HEAD's ancestry / HEAD / off the ancestry / NULL / a well-formed hash unknown to the repository and "
         "whose timestamps are free (so 'newest' and 'closest' disagree; ties forced); git mode none/disabled/no-commits/normal; "
-        "flags none/--again/--this-commit/--at-least X with X a full or abbreviated hash, branch, lightweight tag, non-ancestor "
+        "flags none/--again/--this-commit/--at-least X with X a full or abbreviated hash, branch, lightweight or annotated tag, non-ancestor "
         "commit or garbage, plus illegal combinations. Oracle = independent selection function on the ABSTRACT DAG (reflexive "
         "ancestor sets; distance = |reach(HEAD) minus reach(v)|), never asking git. Observed: `cond where`, `cond where -p`, spawn set "
         "and COND_DEPS of a dependent under the virtual kernel, 'Using cached' lines, exit status. Non-trivial = >=2 rows for one "
         "task whose order by timestamp differs from their order by distance, or a tie, or a non-ancestor row newer than every "
         "ancestor row. Distinct = SHA-1 of case JSON.")
 ASSUMPTIONS = ["'number of separating commits' means what `git rev-list --count HEAD ^v` counts (commits reachable from HEAD and not from v)",
-               "annotated tags and grafted/shallow histories are outside the domain"]
+               "grafted/shallow histories are outside the domain"]
 ESSENTIAL = ["merge_in_ancestry", "tie_same_commit", "only_null", "null_plus_foreign", "unknown_hash",
-             "detached_head", "at_least_equal", "at_least_strict_ancestor", "at_least_unrelated_branch", "git_disabled",
+             "detached_head", "at_least_equal", "at_least_strict_ancestor", "at_least_annotated_tag", "at_least_unrelated_branch", "git_disabled",
              "empty_repo", "no_repo", "again", "newest_is_not_closest", "illegal_flag_combo"]
 TECHNIQUE = "property-based testing (Hypothesis): generated commit DAGs materialised with real git, independent selection model on the abstract DAG"
 LEVEL_TEXT = ("Randomised search over commit graphs x version rows x flags; every observable that reports the selected version is "
@@ -83,7 +83,7 @@ def _case(draw, tier):
     flag = draw(st.sampled_from(["none"] * 4 + ["again", "this_commit", "at_least", "at_least", "at_least", "bad_combo"]))
     case = {"mode": mode, "commits": commits, "head": head, "detached": draw(st.booleans()), "exps": exps, "flag": flag}
     if flag == "at_least":
-        form = draw(st.sampled_from(["full", "abbrev", "branch", "tag", "garbage"]))
+        form = draw(st.sampled_from(["full", "abbrev", "branch", "tag", "atag", "atag", "garbage"]))
         case["al_form"] = form
         case["al_commit"] = draw(st.sampled_from(range(n))) if n else None
     elif flag == "bad_combo":
@@ -145,7 +145,8 @@ def _run(case, root):
     if mode in ("normal", "disabled"):
         refs = {"feature": case.get("al_commit")} if case.get("al_form") == "branch" and case.get("al_commit") is not None else {}
         tags = {"v1": case.get("al_commit")} if case.get("al_form") == "tag" and case.get("al_commit") is not None else {}
-        hashes = gitgen.build(root, commits, head=case["head"], detached=case["detached"], refs=refs, tags=tags)
+        atags = {"rel-1": case.get("al_commit")} if case.get("al_form") == "atag" and case.get("al_commit") is not None else {}
+        hashes = gitgen.build(root, commits, head=case["head"], detached=case["detached"], refs=refs, tags=tags, atags=atags)
         labels.add("git_disabled" if mode == "disabled" else "normal_git")
     elif mode == "empty":
         gitgen.build(root, [], head=None)
@@ -249,6 +250,9 @@ def _run(case, root):
             sym = hashes[c][:10]
         elif form == "branch":
             sym = "feature"
+        elif form == "atag":
+            sym = "rel-1"
+            labels.add("at_least_annotated_tag")
         else:
             sym = "v1"
         argv += ["--at-least", sym]
